@@ -71,6 +71,10 @@ pub fn gen_head(r: &mut StdRng) -> Vec<u8> {
         while v.last().map_or(false, |b| *b == b' ' || *b == b'\t') {
             v.pop();
         }
+        if r.gen_bool(0.03) {
+            // a value made of blanks and stray CRs only (what a trimming helper is left with nothing of)
+            v = (*[&b"\r"[..], b" \r", b"\r ", b"\t\r\r", b" \r \r", b"\r\t"].choose(r).unwrap()).to_vec();
+        }
         h.extend(v);
         h.extend(pick(r, b" \t", 0, 2));
         h.extend(b"\r\n");
